@@ -361,6 +361,8 @@ def compare(it, st, got, exp):
         if e[0] == "struct" and "original" in e[2]:
             return compare(it, st, e[2]["original"], exp[1])
         raise Mismatch("the error value does not carry the original argument")
+    if isinstance(exp, tuple) and exp and exp[0] == "any":
+        return
     if isinstance(exp, tuple) and exp and exp[0] == "signed":
         g = it.deref_all(st, got)
         if not (g[0] == "struct" and g[1] == "bigint::BigInt"):
@@ -1053,13 +1055,27 @@ def o_shr(c):
     k = c.init_val(2)
     if A.is_zero():
         return Poly()
+    if not k.is_zero() and all(x < 0 for x in k.t.values()):
+        return ("any",)  # negative shift amount: the unsigned shift panics (checked by R3a), nothing to compare here
     m = A if k.is_zero() else opaque_sym("shr", A, k).subst(c.st.subst)
     if s >= 0:
         return m
-    rd = c.st.bools.get("round_down")
-    if rd is None:
-        raise Mismatch("the rounding decision for a negative value was never consulted")
-    return -(m + (1 if rd else 0))
+    # floor semantics for negatives: add one iff some one-bit is shifted out:
+    #   k == 0 -> no; k does not fit in u64 -> everything is shifted out -> yes; else iff trailing_zeros(|a|) < k
+    kz = c.st.known_zero(k)
+    if kz is None:
+        raise NeedCase(k)
+    if kz:
+        return -m
+    fits = [v for key, v in c.st.bools.items() if key.startswith("fits_u64(")]
+    if not fits:
+        raise Mismatch("the shift amount was never narrowed to u64 for the rounding decision")
+    if not fits[0]:
+        return -(m + 1)
+    lt = [v for key, v in c.st.bools.items() if key.startswith("Lt(tz(") or key.startswith("Gt(")]
+    if not lt:
+        raise Mismatch("trailing_zeros(|a|) was never compared with the shift amount")
+    return -(m + (1 if lt[0] else 0))
 
 
 def shift_targets(facts):
